@@ -669,6 +669,47 @@ example : (runRequest { handler := { out := .exc },
                         hooks := fun p => if p = .beforeErrorResponse then [⟨1, 50, false, .httpRedirect 303⟩] else [] }
             .get false false).st.out = some 303 := by decide
 
+/-- every code `HTTPRedirect.set_response` knows is a status `finalize` accepts (generated tables) -/
+theorem redirectKnown_valid : ∀ c ∈ CpModel.Gen.Pipeline.redirectKnownCodes,
+    inRanges CpModel.Gen.Pipeline.validStatusRanges c = true ∧ c ≠ 0 := by decide
+
+/-- **the status is then the hook's**: when the error path itself raises `HTTPRedirect(c)` (a
+    `before/after_error_response` hook or a custom `error_response` turning the failure into a redirect)
+    with a code `set_response` knows, `handle_error` answers with exactly that code — the case excluded by
+    `PlainErrorPath` in `C01_error_path_is_5xx`. -/
+theorem C01_error_hook_redirect_status (pg : Page) (s : St) (c : Nat)
+    (h : (handleErrorTry pg s).exn = some (.httpRedirect c)) (hk : redirectKnown c = true) :
+    (handleError pg s).exn = none ∧ (handleError pg s).st.out = some c := by
+  have hmem : c ∈ CpModel.Gen.Pipeline.redirectKnownCodes := by
+    simpa [redirectKnown] using hk
+  obtain ⟨hv, hz⟩ := redirectKnown_valid c hmem
+  unfold handleError
+  simp only [h]
+  have hset : setResponseRedirect c (handleErrorTry pg s).st =
+      { st := { (handleErrorTry pg s).st with status := some c, body := .redirect } } := by
+    unfold setResponseRedirect
+    simp only [hk, if_true]
+  rw [hset]
+  have hnone : ({ st := { (handleErrorTry pg s).st with status := some c, body := .redirect } } : R).exn = none := rfl
+  rw [andThen_of_none hnone]
+  simp only []
+  have hcode : statusCode { (handleErrorTry pg s).st with status := some c, body := .redirect } = c := by
+    unfold statusCode
+    cases c with
+    | zero => exact absurd rfl hz
+    | succ n => rfl
+  unfold finalize
+  simp only [hcode, hv, Bool.not_true, Bool.false_eq_true, if_false]
+  split
+  · exact ⟨rfl, rfl⟩
+  · split
+    · rename_i hif; simp [BodyK.iterFails] at hif
+    · split <;> exact ⟨rfl, rfl⟩
+
+/-- non-vacuity: a `before_error_response` hook raising `HTTPRedirect(303)` -/
+example : (handleErrorTry { hooks := fun p => if p = .beforeErrorResponse then [⟨1, 50, false, .httpRedirect 303⟩] else [] }
+    { attached := true }).exn = some (.httpRedirect 303) := by decide
+
 /-! ### tracebacks off ⇒ no traceback / exception text — false in one way (F2), true otherwise -/
 
 def showsTb : BodyK → Bool
